@@ -135,7 +135,7 @@ func runConc(w *bufio.Writer, id int, seed int64) (fails int) {
 						delete(my, u)
 						break
 					}
-				case x < 70 && len(my) > 0: // read an own object: must be the last accepted write
+				case x < 66 && len(my) > 0: // read an own object: must be the last accepted write
 					for u, want := range my {
 						o, err := db.GetByUUID(&shape.Rec{}, u)
 						if err != nil {
@@ -154,10 +154,10 @@ func runConc(w *bufio.Writer, id int, seed int64) (fails int) {
 						}
 						break
 					}
-				case x < 74: // race for a shared unique key
+				case x < 71: // race for a shared unique key
 					rec := flatToRec(genRec(rr, c))
 					rec.TM, rec.VM = 0, 0
-					rec.K = fmt.Sprintf("shared-%d", rr.Intn(4))
+					rec.K = fmt.Sprintf("round-%d", k/3) // every goroutine reaches round k/3 at about the same time
 					if err := db.InsertOrUpdate(rec); err == nil {
 						mu.Lock()
 						if prev, dup := sharedWin[rec.K]; dup {
@@ -175,7 +175,7 @@ func runConc(w *bufio.Writer, id int, seed int64) (fails int) {
 					own.K = fmt.Sprintf("g%d-%d", g, keyN)
 					sh := flatToRec(genRec(rr, c))
 					sh.TM, sh.VM = 0, 0
-					sh.K = fmt.Sprintf("shared-%d", rr.Intn(4))
+					sh.K = fmt.Sprintf("round-%d", k/3)
 					n, err := db.InsertOrUpdateMany(own, sh)
 					if err != nil {
 						if n != 0 {
